@@ -202,5 +202,8 @@ def main(run: core.Run) -> None:
     run.run_cases(run_case, items, 'read sweep', chunk=50)
     for label, n, clauses in (('claim-call BFS (text oracle)', nb, {'text'}), ('claim-call BFS (text + read sweep)', nr, {'text', 'reads'})):
         bfs_cases = claims.bfs_corpus(n, with_txn4=(tier == 'quick' and 'reads' not in clauses))
+        if 'reads' not in clauses:
+            # the same histories with the store split into blocks of 2-3 tokens: the re-splices of a claim cross block boundaries
+            bfs_cases += [dict(c, lf=2) for c in bfs_cases if c['text'].count('\n') <= 3]
         claims.claims_bfs(run, bfs_cases, clauses, label)
     run.bounds.update({'read_sweep_max_lines': 2 if tier == 'quick' else 3, 'bfs_max_lines': nb, 'bfs_with_reads_max_lines': nr})
